@@ -106,10 +106,14 @@ class Digester:
             self._feed(h, o.ptype, depth + 1)
             if depth < 6:
                 self._feed(h, list(o.tilt), depth + 1)
-            for name in ('focal_length', 'x', 'y', 'trace', 'dispersion', 'angle', 'order', 'axis', '_diameter'):
-                if name in getattr(o, '__dict__', {}):
+            for name in ('focal_length', 'x', 'y', 'trace', 'dispersion', 'angle', 'order', 'axis'):
+                # public attributes of the subclasses, however they are stored (instance dict or property)
+                if name in getattr(o, '__dict__', {}) or isinstance(getattr(type(o), name, None), property):
                     self._feed(h, name, depth + 1)
-                    self._feed(h, o.__dict__[name], depth + 1)
+                    self._feed(h, getattr(o, name), depth + 1)
+            if '_diameter' in getattr(o, '__dict__', {}):
+                self._feed(h, '_diameter', depth + 1)
+                self._feed(h, o.__dict__['_diameter'], depth + 1)
         elif isinstance(o, L.radiometry.Spectrum):
             h.update(b'Sp' + type(o).__name__.encode())
             self._feed(h, o.wave, depth + 1)
@@ -120,8 +124,8 @@ class Digester:
                 self._feed(h, o.__dict__['temp'], depth + 1)
         elif isinstance(o, L.radiometry.Material):
             h.update(b'Mt')
-            self._feed(h, o._transmission, depth + 1)
-            self._feed(h, o._emission, depth + 1)
+            self._feed(h, o.transmission, depth + 1)
+            self._feed(h, o.emission, depth + 1)
             self._feed(h, o.contam, depth + 1)
         elif isinstance(o, BaseException):
             h.update(b'X' + type(o).__name__.encode())
@@ -229,8 +233,9 @@ def _support_mask(recipe, shape, g):
         raise ValueError(sup)
     if not m.any():
         m[nr // 2, nc // 2] = True
-    if not well_posed(m):
+    if not well_posed(m) and not recipe.get('degenerate_ok'):
         # soundness rule 4: >= 3 non-collinear pixels whenever the array allows it
+        # (recipes used where no tilt is ever fitted may ask for slits and single rows: 'degenerate_ok')
         m = np.ones(shape, dtype=bool)
     return m
 
@@ -384,7 +389,7 @@ class Interp:
     def reset_globals(self, world):
         L = self.L
         size = world.get('cache', 32)
-        wrapped = L.fourier._dft2_coords
+        wrapped = getattr(L.fourier, '_dft2_coords', None)      # absent in a tree that builds its coordinates another way: knob is a no-op
         wrapped = getattr(wrapped, '__wrapped__', wrapped)
         self._coords_wrapped = wrapped
         self.set_cache(size)
@@ -393,13 +398,15 @@ class Interp:
 
     def set_cache(self, size):
         import functools
+        if self._coords_wrapped is None:
+            return
         if size is None or size < 0:
             self.L.fourier._dft2_coords = self._coords_wrapped
         else:
             self.L.fourier._dft2_coords = functools.lru_cache(maxsize=size)(self._coords_wrapped)
 
     def cache_info(self):
-        f = self.L.fourier._dft2_coords
+        f = getattr(self.L.fourier, '_dft2_coords', None)
         return f.cache_info() if hasattr(f, 'cache_info') else None
 
     # ---- bookkeeping
@@ -450,7 +457,9 @@ class Interp:
     def run(self, events):
         for i, ev in enumerate(events):
             if 'env' in ev:
-                if self.env_enabled:
+                # environment faults can be switched off (solo passes); a caller's own writes into arrays it owns are part of
+                # its program and always happen
+                if self.env_enabled or (ev.get('c') is not None and ev['env'] in ('poke', 'perturb')):
                     self.do_env(i, ev)
                 continue
             if any(r not in self.store for r in self.event_refs(ev)):
@@ -513,7 +522,7 @@ class Interp:
             self.set_cache(ev['maxsize'])
             self.fault('cache')
         elif kind == 'cache_clear':
-            f = self.L.fourier._dft2_coords
+            f = getattr(self.L.fourier, '_dft2_coords', None)
             if hasattr(f, 'cache_clear'):
                 f.cache_clear()
             self.fault('cache')
@@ -541,6 +550,16 @@ class Interp:
                 if scale is None:
                     scale = 0.37 * (float(np.max(np.abs(a))) or 1.0)
                 a[...] = a + scale * g.normal(size=a.shape)
+                self.fault('caller_write')
+                if self.hooks is not None and hasattr(self.hooks, 'on_dirty'):
+                    self.hooks.on_dirty(self, tid)
+        elif kind == 'poke':
+            # the caller assigns one element of an array it owns
+            tid = ev['target'].lstrip('@')
+            a = self.store.get(tid)
+            if isinstance(a, np.ndarray) and a.flags.writeable and a.size:
+                idx = tuple(min(int(p), n - 1) for p, n in zip(ev.get('pos', [0] * a.ndim), a.shape))
+                a[idx] = ev['value']
                 self.fault('caller_write')
                 if self.hooks is not None and hasattr(self.hooks, 'on_dirty'):
                     self.hooks.on_dirty(self, tid)
